@@ -31,6 +31,8 @@ def oracle(sc, out):
             break
         if run["end"] in ("shutdown", "shutdown-thread-payload", "shutdown-adopters", "sigint") and end["result"] != "returned":
             res.append(("graceful-stop-raised:%s" % run["end"], "runner %d: after %s accept() ended with %s" % (rid, run["end"], end["result"])))
+        # (failure-base: SystemExit / another BaseException / KeyboardInterrupt from a payload - the run ends,
+        # how is C01's and C13's business; what matters here is that the next runner can accept)
         if run["end"] == "failure" and end["result"] != "RuntimeError":
             res.append(("failure-not-raised", "runner %d: a failing payload ended accept() with %s" % (rid, end["result"])))
         if run["end"] in ("shutdown", "shutdown-thread-payload", "shutdown-adopters"):
@@ -59,7 +61,7 @@ def oracle(sc, out):
             if c["result"] != "RuntimeError" or c.get("has_cause"):
                 res.append(("concurrent-accept-not-rejected", "a concurrent accept ended with %s instead of a plain RuntimeError" % c["result"]))
         asked = any(e["kind"] in ("shutdown-call", "sigint") and begin["seq"] < e["seq"] < end["seq"] for e in log)
-        if conc and not asked and run["end"] != "failure":
+        if conc and not asked and run["end"] not in ("failure", "failure-base"):
             res.append(("active-runner-disturbed", "the active runner ended before it was asked to, after a rejected concurrent accept"))
     return res
 
